@@ -38,7 +38,7 @@ OPS = {"add": operator.add, "subtract": operator.sub, "multiply": operator.mul, 
 KINDS = ["unary", "ra", "npscalar", "pyscalar", "0d", "col", "collist", "bad_total", "bad_same_total", "bad_rows", "bad_onerow"]
 FLOOR_TAGS = ["k:" + k for k in KINDS] + ["side:L", "side:R", "spelling:operator", "spelling:ufunc", "kind:b", "kind:i", "kind:u", "kind:f",
                                            "v:small", "v:extreme", "v:nonfinite", "norows", "allempty", "e-first", "e-last", "e-mid", "e-consec", "e-none", "onerow-col"]
-FLOOR_MONITORS = ["c04:compare", "c04:must-refuse", "c04:operands-unchanged", "inv:ragged"]
+FLOOR_MONITORS = ["c04:compare", "c04:must-refuse", "c04:operands-unchanged"]
 N_RANDOM = {"quick": 42000, "thorough": 600000}
 PYSCALARS = [2, 3, -1, 0, 2.5, True, False, 300, -129, 1e10]
 
